@@ -23,12 +23,14 @@ def model_check(ctx):
            label="12 rational wave descriptions x 3 kinds; every signal of 2..3 (quick) / 2..4 (thorough) samples over 5 values, every quarter point of the clock incl. before/after the window; ideal ramp")
     ctx.mc_negative("Wave", "MC_Wave_neg.cfg", workers=2)    # interpolation weights exchanged
     ctx.mc_negative("Wave", "MC_Wave_neg2.cfg", workers=2)   # wavelength from frequency computed as c * f
+    ctx.mc_negative("Wave", "MC_Wave_neg4.cfg", workers=2)   # result cast back to an integer sample type (truncated between samples)
     if not ctx.quick:
         ctx.mc_negative("Wave", "MC_Wave_neg3.cfg", workers=2)  # ramp without the clip
     ctx.assumptions += [
         "exact wave cases use powers of two (and c * 2^-k for wavelengths), for which the correctly rounded float results are the exact values",
         "random wave cases: residuals evaluated exactly with rationals by the harness, bound 1e-12 checked by TLC",
-        "signal cases: samples are multiples of 1/4, times are quarter points of a dyadic sample grid, so float64 interpolation is exact",
+        "signal cases: samples are multiples of 1/4 (integers for the integer dtypes), times are quarter points of a dyadic sample grid (exact in float32 too where float32 times are used), so the interpolation is exact",
+        "samples are handed over as float64/float32/int16/int32/int64 arrays, Python int / float / mixed / bool / complex lists; the claim is the same for all",
         "continuous-wave and Gaussian-pulse clauses are trace-monitored on a finite time grid (scaled integers, scale 1e9)",
         "only linear interpolation is claimed; outside value and the hold of the last sample are compared with the model as drift",
     ]
@@ -58,12 +60,27 @@ def gen_cases(ctx):
     else:
         sigs = [[vals[i] for i in idx] for L in (2, 3, 4) for idx in _product(range(5), L)]
     for i, y4 in enumerate(sigs):
-        yield {"id": f"sgA{i}", "kind": "signal", "y4": y4, "dt": [3, -52], "start": [0, 0], "outside4": 0}
+        yield {"id": f"sgA{i}", "kind": "signal", "y4": y4, "dt": [3, -52], "start": [0, 0], "outside4": 0, "given": "f64", "tdtype": "f64"}
     for i in range(150 if ctx.quick else 3000):
         L = rng.randint(2, 9)
         y4 = [rng.randint(-40, 40) for _ in range(L)]
         yield {"id": f"sgB{i}", "kind": "signal", "y4": y4, "dt": [rng.choice((1, 3, 5, 7)), rng.randint(-60, -40)],
-               "start": [rng.choice((0, 1, 5, -3)), rng.randint(-50, -44)], "outside4": rng.choice((0, 0, 4, -6))}
+               "start": [rng.choice((0, 1, 5, -3)), rng.randint(-50, -44)], "outside4": rng.choice((0, 0, 4, -6)), "given": "f64", "tdtype": "f64"}
+    # the same claim for every legal way of handing the samples over (the stored dtype differs: int32/int64, float32, float64,
+    # complex128, bool) and for float32 as well as float64 time arrays.  Integer formats need integer samples (y4 = 4 * int).
+    givens = ("pyint", "np_int32", "np_int64", "np_int16", "jnp_int32", "mixed", "pyfloat", "np_f32", "complex", "complex_int", "bool")
+    base = [[0, 4, 4, -8, 12, 0, 0], [0, 4], [4, 0], [-4, 8, -12], [12, 0, 0, 4]]
+    n = 0
+    for g in givens:
+        for y in base:
+            for td in ("f64", "f32"):
+                yield _sig_case(f"sgC{n}", rng, g, list(y), td, 0)
+                n += 1
+    for i in range(330 if ctx.quick else 5000):
+        g = givens[i % len(givens)]
+        L = rng.randint(2, 8)
+        y = [4 * rng.randint(-9, 9) for _ in range(L)]
+        yield _sig_case(f"sgD{i}", rng, g, y, rng.choice(("f64", "f32")), rng.choice((0, 0, 4, -8)))
     # continuous wave
     for i in range(60 if ctx.quick else 600):
         yield {"id": f"cw{i}", "kind": "cw", "periods": rng.choice((1, 2, 4, 4, 7)), "grid": rng.choice((16, 32, 48)),
@@ -74,6 +91,22 @@ def gen_cases(ctx):
         fc = rng.uniform(1e14, 6e14)
         yield {"id": f"gp{i}", "kind": "pulse", "fc": fc, "fw": fc * rng.uniform(0.02, 0.6), "grid": rng.choice((200, 400)),
                "phase_center": rng.choice((0.0, 0.7)), "width_via": rng.choice(("frequency", "period", "wavelength"))}
+
+
+def _sig_case(cid, rng, given, y, tdtype, outside4):
+    """y: samples * 4, all multiples of 4 (integer samples)"""
+    c = {"id": cid, "kind": "signal", "given": given, "tdtype": tdtype, "outside4": outside4,
+         "dt": [rng.choice((1, 3, 5)), rng.randint(-40, -2)], "start_steps": rng.choice((0, 0, 2, 5, -1))}
+    if given == "bool":
+        y = [4 if v else 0 for v in y]
+    if given == "mixed":      # ints and quarter-multiple floats in one list
+        y = [v if k % 2 == 0 else v + rng.choice((1, 2, 3, -1)) for k, v in enumerate(y)]
+    if given == "pyfloat":
+        y = [v + rng.choice((0, 1, 2, 3)) for v in y]
+    c["y4"] = y
+    if given in ("complex", "complex_int"):
+        c["y4i"] = [4 * rng.randint(-5, 5) + (rng.choice((0, 1, 2)) if given == "complex" else 0) for _ in y]
+    return c
 
 
 def _product(r, L):
@@ -130,26 +163,74 @@ def _observe_wave(case):
             "bits_in": _bits(x), "bits_out": _bits(back)}
 
 
+def _samples(case):
+    """the sample array exactly as a user would hand it over"""
+    import jax.numpy as jnp
+    import numpy as np
+
+    y4, g = case["y4"], case["given"]
+    yi = case.get("y4i") or [0] * len(y4)
+    ints = [v // 4 for v in y4]
+    if g == "f64":
+        return jnp.asarray([v / 4.0 for v in y4], dtype=jnp.float64)
+    if g == "pyint":
+        return list(ints)
+    if g in ("np_int32", "np_int64", "np_int16"):
+        return np.asarray(ints, dtype={"np_int32": np.int32, "np_int64": np.int64, "np_int16": np.int16}[g])
+    if g == "jnp_int32":
+        return jnp.asarray(ints, dtype=jnp.int32)
+    if g == "mixed":
+        return [v // 4 if v % 4 == 0 else v / 4.0 for v in y4]
+    if g == "pyfloat":
+        return [v / 4.0 for v in y4]
+    if g == "np_f32":
+        return np.asarray([v / 4.0 for v in y4], dtype=np.float32)
+    if g == "complex":
+        return [complex(a / 4.0, b / 4.0) for a, b in zip(y4, yi)]
+    if g == "complex_int":
+        return [a // 4 + (b // 4) * 1j for a, b in zip(y4, yi)]
+    if g == "bool":
+        return [bool(v) for v in y4]
+    raise ValueError(g)
+
+
+def _grid16(values):
+    v16, ongrid = [], []
+    for v in values:
+        w = float(v) * 16.0
+        ok = math.isfinite(w) and w == round(w) and abs(w) < 2**30
+        ongrid.append(bool(ok))
+        v16.append(int(round(w)) if ok else 0)
+    return v16, ongrid
+
+
 def _observe_signal(case):
     import jax.numpy as jnp
     import numpy as np
     from fdtdx.objects.sources.profile import CustomTimeSignalProfile
 
     y4 = case["y4"]
+    y4i = case.get("y4i") or [0] * len(y4)
     dt = math.ldexp(case["dt"][0], case["dt"][1])
-    start = math.ldexp(case["start"][0], case["start"][1])
+    # start is either an independent dyadic number (float64 times) or a whole number of steps (so that every time point
+    # is a small integer times dt/4 and therefore exact in float32 too)
+    start = math.ldexp(case["start"][0], case["start"][1]) if "start" in case else case["start_steps"] * dt
     outside = case["outside4"] / 4.0
-    prof = CustomTimeSignalProfile(signal=jnp.asarray([v / 4.0 for v in y4], dtype=jnp.float64), time_step_duration=dt, start_time=start, outside_value=outside)
     js = list(range(-4, (len(y4) + 1) * 4 + 1))
     times = np.asarray([start + j * (dt / 4.0) for j in js], dtype=np.float64)
-    out = np.asarray(prof.get_amplitude(jnp.asarray(times), period=1.0), dtype=np.float64)
-    v16, ongrid = [], []
-    for v in out:
-        w = float(v) * 16.0
-        ok = math.isfinite(w) and w == round(w) and abs(w) < 2**30
-        ongrid.append(bool(ok))
-        v16.append(int(round(w)) if ok else 0)
-    return {"id": case["id"], "kind": "signal", "sub": 4, "y4": y4, "outside4": case["outside4"], "js": js, "v16": v16, "ongrid": ongrid}
+    tdt = jnp.float32 if case.get("tdtype") == "f32" else jnp.float64
+    exact_times = bool(np.all(np.asarray(times.astype(np.float32 if tdt == jnp.float32 else np.float64), dtype=np.float64) == times))
+    built, out = True, np.zeros(len(js), dtype=np.complex128)
+    try:
+        prof = CustomTimeSignalProfile(signal=_samples(case), time_step_duration=dt, start_time=start, outside_value=outside)
+        out = np.asarray(prof.get_amplitude(jnp.asarray(times, dtype=tdt), period=1.0)).astype(np.complex128)
+    except Exception:
+        built = False
+    v16, ongrid = _grid16(out.real)
+    v16i, ongridi = _grid16(out.imag)
+    return {"id": case["id"], "kind": "signal", "sub": 4, "given": case.get("given", "f64"), "tdtype": case.get("tdtype", "f64"), "built": built,
+            "exact_times": exact_times, "y4": y4, "y4i": y4i, "outside4": case["outside4"], "js": js,
+            "v16": v16, "ongrid": ongrid, "v16i": v16i, "ongridi": ongridi}
 
 
 def _ints(arr):
